@@ -54,7 +54,7 @@ def gen_cfg(rng, real_frac=0.06, allow_long=True, engines=None):
             cfg["extra_pad"] = rng.randint(1, 2)
             cfg["pad_coords"] = True
     S = cfg["steps"]
-    cfg["dt"] = rng.choice([0.2, 0.25, 0.5, 1.0]) if not (real and eng == "sh") else 0.2
+    cfg["dt"] = rng.choice([0.1, 0.2, 0.25, 0.5]) if not (real and eng == "sh") else 0.2
     cfg["temp"] = rng.choice([50.0, 300.0, 300.0, 600.0])
     cfg["seed"] = rng.randrange(1 << 20)
     if eng in ("langevin", "xl_damp"):
